@@ -2,7 +2,13 @@
 """Translator: regenerate coq/theories/Model/Tables.v from /repo's working tree.
 
 Literal tables and the inline category lists of the token rules are read from
-the Python `ast` of the sources (fail-closed: an unexpected shape raises).
+the Python `ast` of the sources (fail-closed: an unexpected shape raises).  A
+list or dict that has been hoisted into a module-level literal constant is read
+through the name (resolved in the module's AST, see
+gen_tokrules.module_constants); when the rules are not in the shape this
+reader knows, it reads them again in the normal form gen_tokrules.py
+translates (helpers inlined, early returns turned into nesting, ...); only when
+that fails too are the previous tables kept (TRANSLATION-PARTIAL).
 Computed tables are obtained by importing the modules in this (fresh)
 interpreter and dumping the objects; sets are dumped sorted.
 
@@ -10,9 +16,12 @@ Usage: gen_tables.py <out.v>      exit 0 = written (only if content changed)
                                   exit 2 = translation failed (message on stderr)
 """
 import ast
+import copy
 import re
 import os
 import sys
+
+import gen_tokrules
 
 REPO = os.environ.get('TEXSOUP_REPO', '/repo')
 sys.path.insert(0, REPO)
@@ -60,7 +69,7 @@ def lst(items):
 
 def parse_file(name):
     with open(os.path.join(REPO, 'TexSoup', name)) as f:
-        return ast.parse(f.read())
+        return gen_tokrules.strip_annotations(ast.parse(f.read()))
 
 
 def func(tree, name):
@@ -103,13 +112,70 @@ def eq_constants(fn, base='CC'):
     return [(a, b) for a, b, _, _ in out]
 
 
-def dict_literal(fn, varname):
-    for n in ast.walk(fn):
-        if isinstance(n, ast.Assign) and len(n.targets) == 1 and \
-                isinstance(n.targets[0], ast.Name) and n.targets[0].id == varname and \
-                isinstance(n.value, ast.Dict):
-            return n.value
-    raise TranslationError('dict %s not found in %s' % (varname, fn.name))
+def dict_literal(fn):
+    """the one dict literal assigned to a local of fn (whatever its name)"""
+    found = [n.value for n in ast.walk(fn)
+             if isinstance(n, ast.Assign) and len(n.targets) == 1 and
+             isinstance(n.targets[0], ast.Name) and isinstance(n.value, ast.Dict)]
+    need(len(found) == 1, '%s: expected one dict literal, found %d' % (fn.name, len(found)))
+    return found[0]
+
+
+def light_bindings(tree):
+    """{name: [how]} for the module-level bindings of tree (never raises)"""
+    bound = {}
+
+    def bind(name, how):
+        bound.setdefault(name, []).append(how)
+    for st in tree.body:
+        if isinstance(st, ast.ImportFrom):
+            for a in st.names:
+                bind(a.asname or a.name, 'from %s import %s' % (st.module, a.name))
+        elif isinstance(st, ast.Import):
+            for a in st.names:
+                bind((a.asname or a.name).split('.')[0], 'import')
+        elif isinstance(st, (ast.FunctionDef, ast.ClassDef)):
+            bind(st.name, 'def')
+        elif isinstance(st, ast.Assign):
+            for t in st.targets:
+                for x in ast.walk(t):
+                    if isinstance(x, ast.Name):
+                        bind(x.id, 'assign')
+        else:
+            for x in ast.walk(st):
+                if isinstance(x, ast.Name) and isinstance(x.ctx, (ast.Store, ast.Del)):
+                    bind(x.id, 'other')
+    for n in ast.walk(tree):
+        if isinstance(n, (ast.Global, ast.Nonlocal)):
+            for nm in n.names:
+                bind(nm, 'global')
+    return bound
+
+
+def rule_getter(tk, level):
+    """name of a rule function -> its FunctionDef.
+    level 0: the source as written, literal module-level constants inlined;
+    level 1: the normal form that gen_tokrules.py translates."""
+    try:
+        if level == 0:
+            bound = light_bindings(tk)
+            for nm in ('frozenset', 'tuple', 'set', 'list'):
+                need(nm not in bound, 'builtin %s is rebound' % nm)
+            consts = gen_tokrules.module_constants(tk, bound)
+
+            def get(name):
+                fn = copy.deepcopy(func(tk, name))
+                gen_tokrules.inline_constants(fn, consts)
+                return gen_tokrules.renumber(fn)
+            return get
+        table = dict((fn.name, fn) for _, fn in gen_tokrules.normalised_rules(tk))
+
+        def get1(name):
+            need(name in table, 'function %s not found' % name)
+            return table[name]
+        return get1
+    except gen_tokrules.TranslationError as e:
+        raise TranslationError(str(e))
 
 
 def assigned_category(fn):
@@ -125,6 +191,7 @@ def assigned_category(fn):
 
 
 STALE = []
+NOTES = []
 OUTP = [None]
 
 
@@ -148,6 +215,75 @@ def str_seq(val, what):
     """a tuple/list of names as is, a set/frozenset sorted"""
     need(isinstance(val, (tuple, list, set, frozenset)) and all(isinstance(x, str) for x in val), what)
     return list(val) if isinstance(val, (tuple, list)) else sorted(val)
+
+
+def read_rule_tables(w, get):
+    """the inline category lists of the token rules, with a fingerprint of each
+    rule's tests; get: function name -> FunctionDef (see rule_getter)"""
+    # escaped symbols
+    f = get('tokenize_escaped_symbols')
+    ml = membership_lists(f)
+    need(len(ml) == 1 and ml[0][0] == 'In', 'tokenize_escaped_symbols: expected one `in` list')
+    need(eq_constants(f) == [('Eq', 'Escape')], 'tokenize_escaped_symbols: head test changed')
+    need(assigned_category(f) == ['EscapedComment'], 'tokenize_escaped_symbols: category changed')
+    w('Definition escaped_second_cats : list cc := ' + lst([cc(n) for n in ml[0][1]]) + '.')
+    # comment
+    f = get('tokenize_line_comment')
+    need(eq_constants(f) == [('Eq', 'Comment'), ('NotEq', 'Comment'), ('NotEq', 'EndOfLine')],
+         'tokenize_line_comment: tests changed: %s' % eq_constants(f))
+    need(assigned_category(f) == ['Comment'], 'tokenize_line_comment: category changed')
+    # math sym
+    f = get('tokenize_math_sym_switch')
+    need(eq_constants(f) == [('Eq', 'MathSwitch'), ('Eq', 'MathSwitch')], 'tokenize_math_sym_switch changed')
+    need(assigned_category(f) == ['DisplayMathSwitch', 'MathSwitch'], 'tokenize_math_sym_switch categories')
+    # math asym
+    f = get('tokenize_math_asym_switch')
+    d = dict_literal(f)
+    rows = []
+    for k, v in zip(d.keys, d.values):
+        need(isinstance(k, ast.Tuple) and len(k.elts) == 2, 'asym mapping key')
+        rows.append('((%s, %s), %s)' % (cc(attr_name(k.elts[0], 'CC')), cc(attr_name(k.elts[1], 'CC')),
+                                        tc(attr_name(v, 'TC'))))
+    w('Definition asym_map : list ((cc * cc) * tc) := ' + lst(rows) + '.')
+    # line break
+    f = get('tokenize_line_break')
+    need(eq_constants(f) == [('Eq', 'Escape'), ('Eq', 'Escape')], 'tokenize_line_break changed')
+    need(assigned_category(f) == ['LineBreak'], 'tokenize_line_break category')
+    # ignore
+    f = get('tokenize_ignore')
+    ml = membership_lists(f)
+    need(len(ml) == 1 and ml[0][0] == 'In', 'tokenize_ignore: expected one `in` list')
+    w('Definition ignore_cats : list cc := ' + lst([cc(n) for n in ml[0][1]]) + '.')
+    # spacers
+    f = get('tokenize_spacers')
+    need(eq_constants(f) == [('Eq', 'Spacer'), ('Eq', 'EndOfLine'), ('Eq', 'Spacer')],
+         'tokenize_spacers: tests changed: %s' % eq_constants(f))
+    ml = membership_lists(f)
+    need(len(ml) == 1 and ml[0][0] == 'In', 'tokenize_spacers: expected one `in` list')
+    need(assigned_category(f) == ['MergedSpacer'], 'tokenize_spacers category')
+    w('Definition spacer_rollback_cats : list cc := ' + lst([cc(n) for n in ml[0][1]]) + '.')
+    # symbols
+    f = get('tokenize_symbols')
+    d = dict_literal(f)
+    rows = ['(%s, %s)' % (cc(attr_name(k, 'CC')), tc(attr_name(v, 'TC'))) for k, v in zip(d.keys, d.values)]
+    w('Definition symbols_map : list (cc * tc) := ' + lst(rows) + '.')
+    # punctuation
+    f = get('tokenize_punctuation_command_name')
+    need(eq_constants(f) == [('Eq', 'Escape')], 'tokenize_punctuation_command_name changed')
+    need(assigned_category(f) == ['PunctuationCommandName'], 'punctuation category')
+    # command name
+    f = get('tokenize_command_name')
+    need(eq_constants(f) == [('Eq', 'Escape'), ('Eq', 'Letter'), ('Eq', 'Letter')],
+         'tokenize_command_name changed: %s' % eq_constants(f))
+    stars = [n.value for n in ast.walk(f) if isinstance(n, ast.Constant) and isinstance(n.value, str)
+             and len(n.value) == 1]
+    need(stars == ['*'], 'tokenize_command_name: star literal changed: %s' % stars)
+    need(assigned_category(f) == ['CommandName'], 'command_name category')
+    # string
+    f = get('tokenize_string')
+    ml = membership_lists(f)
+    need(len(ml) == 1 and ml[0][0] == 'NotIn', 'tokenize_string: expected one `not in` list')
+    w('Definition string_stop_cats : list cc := ' + lst([cc(n) for n in ml[0][1]]) + '.')
 
 
 def generate():
@@ -205,70 +341,21 @@ def generate():
     mark = len(out)
     try:
         tk = parse_file('tokens.py')
-        # escaped symbols
-        f = func(tk, 'tokenize_escaped_symbols')
-        ml = membership_lists(f)
-        need(len(ml) == 1 and ml[0][0] == 'In', 'tokenize_escaped_symbols: expected one `in` list')
-        need(eq_constants(f) == [('Eq', 'Escape')], 'tokenize_escaped_symbols: head test changed')
-        need(assigned_category(f) == ['EscapedComment'], 'tokenize_escaped_symbols: category changed')
-        w('Definition escaped_second_cats : list cc := ' + lst([cc(n) for n in ml[0][1]]) + '.')
-        # comment
-        f = func(tk, 'tokenize_line_comment')
-        need(eq_constants(f) == [('Eq', 'Comment'), ('NotEq', 'Comment'), ('NotEq', 'EndOfLine')],
-             'tokenize_line_comment: tests changed: %s' % eq_constants(f))
-        need(assigned_category(f) == ['Comment'], 'tokenize_line_comment: category changed')
-        # math sym
-        f = func(tk, 'tokenize_math_sym_switch')
-        need(eq_constants(f) == [('Eq', 'MathSwitch'), ('Eq', 'MathSwitch')], 'tokenize_math_sym_switch changed')
-        need(assigned_category(f) == ['DisplayMathSwitch', 'MathSwitch'], 'tokenize_math_sym_switch categories')
-        # math asym
-        f = func(tk, 'tokenize_math_asym_switch')
-        d = dict_literal(f, 'mapping')
-        rows = []
-        for k, v in zip(d.keys, d.values):
-            need(isinstance(k, ast.Tuple) and len(k.elts) == 2, 'asym mapping key')
-            rows.append('((%s, %s), %s)' % (cc(attr_name(k.elts[0], 'CC')), cc(attr_name(k.elts[1], 'CC')),
-                                            tc(attr_name(v, 'TC'))))
-        w('Definition asym_map : list ((cc * cc) * tc) := ' + lst(rows) + '.')
-        # line break
-        f = func(tk, 'tokenize_line_break')
-        need(eq_constants(f) == [('Eq', 'Escape'), ('Eq', 'Escape')], 'tokenize_line_break changed')
-        need(assigned_category(f) == ['LineBreak'], 'tokenize_line_break category')
-        # ignore
-        f = func(tk, 'tokenize_ignore')
-        ml = membership_lists(f)
-        need(len(ml) == 1 and ml[0][0] == 'In', 'tokenize_ignore: expected one `in` list')
-        w('Definition ignore_cats : list cc := ' + lst([cc(n) for n in ml[0][1]]) + '.')
-        # spacers
-        f = func(tk, 'tokenize_spacers')
-        need(eq_constants(f) == [('Eq', 'Spacer'), ('Eq', 'EndOfLine'), ('Eq', 'Spacer')],
-             'tokenize_spacers: tests changed: %s' % eq_constants(f))
-        ml = membership_lists(f)
-        need(len(ml) == 1 and ml[0][0] == 'In', 'tokenize_spacers: expected one `in` list')
-        need(assigned_category(f) == ['MergedSpacer'], 'tokenize_spacers category')
-        w('Definition spacer_rollback_cats : list cc := ' + lst([cc(n) for n in ml[0][1]]) + '.')
-        # symbols
-        f = func(tk, 'tokenize_symbols')
-        d = dict_literal(f, 'mapping')
-        rows = ['(%s, %s)' % (cc(attr_name(k, 'CC')), tc(attr_name(v, 'TC'))) for k, v in zip(d.keys, d.values)]
-        w('Definition symbols_map : list (cc * tc) := ' + lst(rows) + '.')
-        # punctuation
-        f = func(tk, 'tokenize_punctuation_command_name')
-        need(eq_constants(f) == [('Eq', 'Escape')], 'tokenize_punctuation_command_name changed')
-        need(assigned_category(f) == ['PunctuationCommandName'], 'punctuation category')
-        # command name
-        f = func(tk, 'tokenize_command_name')
-        need(eq_constants(f) == [('Eq', 'Escape'), ('Eq', 'Letter'), ('Eq', 'Letter')],
-             'tokenize_command_name changed: %s' % eq_constants(f))
-        stars = [n.value for n in ast.walk(f) if isinstance(n, ast.Constant) and isinstance(n.value, str)
-                 and len(n.value) == 1]
-        need(stars == ['*'], 'tokenize_command_name: star literal changed: %s' % stars)
-        need(assigned_category(f) == ['CommandName'], 'command_name category')
-        # string
-        f = func(tk, 'tokenize_string')
-        ml = membership_lists(f)
-        need(len(ml) == 1 and ml[0][0] == 'NotIn', 'tokenize_string: expected one `not in` list')
-        w('Definition string_stop_cats : list cc := ' + lst([cc(n) for n in ml[0][1]]) + '.')
+        errors = []
+        for level in (0, 1):
+            lines = []
+            try:
+                read_rule_tables(lines.append, rule_getter(tk, level))
+            except TranslationError as e:
+                errors.append(str(e))
+                continue
+            out.extend(lines)
+            if level == 1:
+                NOTES.append('token-rule tables read from the normal form of the rules '
+                             '(as written: %s)' % errors[0])
+            break
+        else:
+            raise TranslationError('; in normal form: '.join(errors))
     except TranslationError as e:
         del out[mark:]
         old = previous_definitions(rule_tables)
@@ -349,6 +436,8 @@ def main():
         print('Tables.v rewritten')
     else:
         print('Tables.v unchanged')
+    for msg in NOTES:
+        print('TRANSLATION-NOTE: %s' % msg)
     for msg in STALE:
         print('TRANSLATION-PARTIAL: %s' % msg)
     return 0
